@@ -122,6 +122,27 @@ def enum_units(tier, seed):
         [{"k": "const", "n": "kx_q", "e": L(0x11), "eager": True}, org, {"k": "block", "b": [lab("kx_q"), dl("kx_q")]}, {"k": "block", "b": [{"k": "const", "n": "kx_q", "e": L(0x22), "eager": True}, db(["id", "kx_q"])]},
          {"k": "block", "b": [{"k": "const", "n": "kx_q", "e": L(0x123456), "eager": False}, dl("kx_q")]}, db(["id", "kx_q"])],
     ]
+    # a named scope whose name is also a constant / a label further out, written inside a block, a loop, a macro body or another
+    # named scope: the plain name keeps meaning the outer definition, in the scope's parent and inside the scope
+    for outer_kind in ("eager", "late", "label"):
+        for ctx in ("block", "loop", "macro", "named", "root"):
+            inner = [db(["bin", "&", ["id", "sc_q"], L(0xFF)]), {"k": "scope", "n": "sc_q", "b": [db(L(0xAA)), lab("lb_t"), dl("sc_q"), db(L(0xAB))]},
+                     dl("sc_q", "sc_q.lb_t")]
+            if outer_kind == "label":
+                inner = inner[1:]  # (a byte-sized use of a label value is not a name test)
+            pre = [{"k": "const", "n": "sc_q", "e": L(0x21), "eager": outer_kind == "eager"}] if outer_kind != "label" else []
+            first = [org] + ([lab("sc_q"), db(L(0x55))] if outer_kind == "label" else [])
+            if ctx == "block":
+                wrap = [{"k": "block", "b": inner}]
+            elif ctx == "loop":
+                wrap = [{"k": "for", "v": "i_0", "lo": L(0), "hi": L(2), "b": inner}]
+            elif ctx == "macro":
+                wrap = [{"k": "macro", "n": "m_w", "ps": [], "b": inner}, {"k": "call", "n": "m_w", "args": []}, {"k": "call", "n": "m_w", "args": []}]
+            elif ctx == "named":
+                wrap = [{"k": "scope", "n": "sc_w", "b": inner}]
+            else:
+                wrap = inner
+            extra.append(pre + first + wrap + [dl("sc_q")])
     for i, ir in enumerate(extra):
         cases.append({"rom": "low", "files": {}, "ir": ir, "twin_seed": 100 + i})
     return {"units": [{"cases": cases[i::8]} for i in range(8)], "exhaustive": False}
